@@ -30,6 +30,8 @@ def main():
             print("       model:", {k: v for k, v in list(o.values.items())[:12]})
         if not ok and os.environ.get("PYVC_TRACE"):
             print("       trace:", " ".join(o.info.get("trace", [])[-14:]))
+        if os.environ.get("PYVC_DUMPALL") and os.environ["PYVC_DUMPALL"] in o.name:
+            open("/tmp/d3/" + o.name.replace("/", "_") + ".smt2", "w").write(o.smt2)
         if not ok and os.environ.get("PYVC_DUMP"):
             open(os.environ["PYVC_DUMP"] + "/" + o.name.replace("/", "_") + ".smt2", "w").write(o.smt2)
     print("trusted:", e.trusted)
